@@ -249,6 +249,39 @@ impl Node {
         }
         !self.any(&|n| matches!(n, Node::Class(c) if !cls(c)))
     }
+    /// length of every match if it is the same for all matches (mirrors what a fixed-length
+    /// analysis can know; back-references are variable)
+    pub fn fixed_len(&self) -> Option<usize> {
+        match self {
+            Node::Empty | Node::Bol | Node::Eol => Some(0),
+            Node::Char(_) | Node::Dot | Node::Esc(_) | Node::Prop(..) | Node::Class(_) => Some(1),
+            Node::Backref(_) => None,
+            Node::Group(b) | Node::NcGroup(b) => b.fixed_len(),
+            Node::Cat(v) => v.iter().try_fold(0usize, |a, n| n.fixed_len().map(|l| a + l)),
+            Node::Alt(v) => {
+                let first = v.first()?.fixed_len()?;
+                if v.iter().all(|n| n.fixed_len() == Some(first)) {
+                    Some(first)
+                } else {
+                    None
+                }
+            }
+            Node::Repeat { body, min, max, .. } => {
+                if Some(*min) == *max {
+                    body.fixed_len().map(|l| l * min)
+                } else if body.fixed_len() == Some(0) {
+                    Some(0)
+                } else {
+                    None
+                }
+            }
+        }
+    }
+    /// a greedy quantifier that allows zero iterations over a variable-length body: the engine
+    /// memoises its zero-iteration alternative per position (History)
+    pub fn has_min0_variable_greedy_repeat(&self) -> bool {
+        self.any(&|n| matches!(n, Node::Repeat { body, min: 0, greedy: true, max, .. } if *max != Some(0) && body.fixed_len().is_none()))
+    }
     pub fn has_ncgroup(&self) -> bool {
         self.any(&|n| matches!(n, Node::NcGroup(_)))
     }
